@@ -76,6 +76,12 @@ def main():
     res.append(semantic('closed2lean.py','shirokov k / N',[(L,"Ck = (N / k) * Uk.value[0]","Ck = (k / N) * Uk.value[0]")]))
     res.append(semantic('closed2lean.py','shirokov range(1, N+1)',[(L,"for k in range(1, N):\n                Ck","for k in range(1, N + 1):\n                Ck")]))
     MVF='clifford/_multivector.py'
+    IO='clifford/io.py'
+    res.append(harmless('io2lean.py','io: unchanged',[]))
+    res.append(semantic('io2lean.py','io: json transposed data without flag',[(IO,"dset_data['data'] = mv_array.T.tolist()\n        dset_data['transpose'] = True","dset_data['data'] = mv_array.T.tolist()\n        dset_data['transpose'] = False")]))
+    res.append(semantic('io2lean.py','io: uncompressed transposed branch stores untransposed',[(IO,'dset_data = f.create_dataset("data", data=mv_array.T)','dset_data = f.create_dataset("data", data=mv_array)')]))
+    res.append(semantic('io2lean.py','io: reader ignores the flag',[(IO,"data_array = data[:].T","data_array = data[:]")]))
+    res.append(semantic('io2lean.py','io: swapaxes',[(IO,"data_array = data[:].T","data_array = data[:].swapaxes(0, -1)")]))
     res.append(harmless('printer2lean.py','__str__ coeff*sign',[(MVF,"abs_coeff = sign*coeff","abs_coeff = coeff*sign")]))
     res.append(semantic('printer2lean.py','__str__ seps swapped',[(MVF,"sep = seps[1]\n                    sign = -1","sep = seps[0]\n                    sign = -1")]))
     res.append(semantic('printer2lean.py','__str__ grade == 1',[(MVF,"if grade == 0:\n                    # scalar","if grade == 1:\n                    # scalar")]))
